@@ -164,176 +164,16 @@ def readback_guard(ctx, sc) -> Optional[str]:
 
 
 def run(ctx, rule="C16.G"):
+    """Every narrow field at the encode boundary refuses what it cannot hold - decided by running each instruction's own serialize()
+    (operand cstruct properties, struct constructors and Command.__init__ included) in the checker's interpreter with ctypes'
+    truncating stores modelled (nqsa/codec.py): per operand leaf of the published table, the values just outside the leaf's width
+    and one further wrap-around must raise, the two ends of the width must encode and decode back.  The subroutine header's app id
+    likewise."""
+    from .. import codec
     repo, ev = ctx.repo, ctx.ev
-    n_sinks = 0
-    # ---- (a) immediates in serialize() ------------------------------------
-    shapes = {}
-    for c in I.all_registered(repo):
-        so = I.shape_owner(repo, c, "serialize")
-        if so is not None:
-            shapes[so.qualname] = so
-    rb_cache = {}
-    for q, s in sorted(shapes.items()):
-        fn = s.methods["serialize"]
-        ctx.fn(q + ".serialize")
-        ser = I.analyse_serialize(repo, s, fn)
-        if ser.struct is None:
-            ctx.error(rule, f"{s.name}.serialize builds no struct")
-            continue
-        sfields = {n: (t, b) for n, t, b in wire.struct_fields(ev, ser.struct)}
-        names = list(sfields)
-        # locate the struct constructor call node in the original function for dominance
-        call_node = None
-        for n in ast.walk(fn):
-            if isinstance(n, ast.Call) and repo.resolve_class(s.module, n.func) is ser.struct:
-                call_node = n
-        # every scalar field of the struct must get its value from an analysable, guarded source: starred or ** arguments hide
-        # which value reaches which field, and positional values bypass the read-back guard (it iterates over keywords)
-        ctor = call_node
-        hidden = [src(a) for a in (ctor.args if ctor is not None else []) if isinstance(a, ast.Starred)] + ["**" + src(k.value) for k in (ctor.keywords if ctor is not None else []) if k.arg is None]
-        covered = set()
-        for k in ser.fields:
-            if not k.startswith("_pos"):
-                covered.add(k)
-            elif not isinstance(ser.fields[k], ast.Starred) and int(k[4:]) < len(names):
-                covered.add(names[int(k[4:])])
-        uncovered = [f_ for f_, (t_, b_) in sfields.items() if isinstance(t_, CScalar) and f_ not in covered and f_ != names[0] and not f_.lower().startswith("pad")]
-        ctx.check(rule, f"{s.name}->{ser.struct.name}:every-field-from-a-named-source", not hidden and not uncovered,
-                  f"{s.name}.serialize passes {hidden or 'no value'} to {ser.struct.name}(...) so that field(s) {uncovered} receive values the guards cannot be matched to "
-                  f"(the read-back guard of {ser.struct.name}.__init__ only sees keyword arguments): an out-of-range operand is truncated silently", s.loc(fn), trivial=True)
-        for k, v in ser.fields.items():
-            if isinstance(v, ast.Starred):
-                continue
-            by_kw = not k.startswith("_pos")
-            f = k if by_kw else names[int(k[4:])]
-            cl = c01._classify_ser(v)
-            if cl is None or cl[0] not in ("value", "ident"):
-                continue
-            t, bits = sfields[f]
-            if not isinstance(t, CScalar):
-                continue
-            n_sinks += 1
-            lo, hi = field_range(t, bits)
-            what = f"{s.name}.{cl[1]}->{ser.struct.name}.{f}"
-            strength, notes = local_guard_strength(ctx, s, s.module, fn, call_node, v, lo, hi, what)
-            if strength != "full" and by_kw:
-                if ser.struct.qualname not in rb_cache:
-                    rb_cache[ser.struct.qualname] = readback_guard(ctx, ser.struct)
-                if rb_cache[ser.struct.qualname] == "full":
-                    strength = "full"
-                    notes.append(f"read-back guard in {ser.struct.name}.__init__ (inherited) over keyword arguments")
-            ctx.check(rule, f"{what}:guard", strength == "full",
-                      f"{what}: value {src(v)} reaches a {wire.kind_name(t)} field (range {lo}..{hi}) with guard strength '{strength}'; "
-                      f"ctypes truncates silently, an out-of-range operand encodes as a different valid-looking one",
-                      s.loc(fn), facts={"strength": strength, "notes": notes},
-                      sample={"sink": what, "range": [lo, hi], "strength": strength, "guard": notes[-1] if notes else None})
-    # ---- (b) operand classes -----------------------------------------------
-    m = repo.module(I.OPERAND_MOD)
-    for c in m.classes.values():
-        if "cstruct" not in c.methods or "from_raw" not in c.methods:
-            continue
-        fn = c.methods["cstruct"]
-        ctx.fn(c.qualname + ".cstruct")
-        sc = c01._operand_struct(repo, c)
-        if sc is None:
-            # the struct is not built here but looked up: an int field of the operand used as a sequence index is a narrow sink
-            # of its own (a negative index does not fail, it wraps around); the IndexError of the lookup covers the upper side only
-            anns = {nm: ann for nm, ann, val, k in repo.dataclass_fields(c)}
-            for r_ in A.returns(fn):
-                for sub_ in ast.walk(r_.value) if r_.value is not None else []:
-                    if isinstance(sub_, ast.Subscript) and A.is_self_attr(sub_.slice) and "int" not in I.ann_types(anns.get(sub_.slice.attr)):
-                        n_sinks += 1  # keyed by an enum-valued field: a key outside the table fails the lookup
-                    elif isinstance(sub_, ast.Subscript) and A.is_self_attr(sub_.slice):
-                        base = sub_.value
-                        while isinstance(base, ast.Subscript):
-                            base = base.value
-                        tdef = m.assigns.get(base.id) if isinstance(base, ast.Name) and hasattr(m, "assigns") else None
-                        n_sinks += 1
-                        what = f"operand.{c.name}.{sub_.slice.attr}->index of {src(base)}"
-                        strength, notes = local_guard_strength(ctx, c, m, fn, r_, sub_.slice, 0, 1 << 62, what)
-                        ctx.check(rule, f"{what}:guard", strength in ("full", "lower-only"),
-                                  f"{what}: `{src(sub_)}` is reached without a guard that rejects negative values; a negative index selects an entry from the end of the "
-                                  f"sequence, so e.g. index -1 encodes as the highest valid one instead of being rejected", c.loc(fn),
-                                  sample={"sink": what, "strength": strength})
-            continue
-        ret = A.returns(fn)[0].value
-        sfl = wire.struct_fields(ev, sc)
-        names = [nm for nm, _, _ in sfl]
-        fmap = {}
-        for i, a in enumerate(ret.args):
-            fmap[names[i]] = (a, False)
-        for k, v in A.kwargs_of(ret).items():
-            fmap[k] = (v, True)
-        anns = {nm: ann for nm, ann, val, k in repo.dataclass_fields(c)}
-        for f, (v, by_kw) in fmap.items():
-            cl = c01._classify_ser(v)
-            if cl is None or cl[0] not in ("value", "ident"):
-                continue
-            t, bits = next((t, b) for nm, t, b in sfl if nm == f)
-            if not isinstance(t, CScalar):
-                continue
-            n_sinks += 1
-            lo, hi = field_range(t, bits)
-            what = f"operand.{c.name}.{cl[1]}->{sc.name}.{f}"
-            if cl[0] == "value":
-                # enum-valued: the domain of the enum is the guard
-                ok = False
-                vals = None
-                for tn in I.ann_types(anns.get(cl[1])):
-                    ec = repo.resolve_class(m, tn)
-                    if ec is not None and ev.is_enum(ec):
-                        vals = sorted(ev.enum_members(ec).values())
-                        ok = all(isinstance(x, int) and lo <= x <= hi for x in vals)
-                # plus a type assertion that the attribute is a member of that enum must dominate
-                strength = "full" if ok else "none"
-                ctx.check(rule, f"{what}:guard", ok, f"{what}: enum values {vals} do not all fit the field range {lo}..{hi}", c.loc(fn),
-                          sample={"sink": what, "range": [lo, hi], "enum_values": vals})
-                continue
-            strength, notes = local_guard_strength(ctx, c, m, fn, ret, v, lo, hi, what)
-            if strength != "full":
-                s2, n2 = post_init_strength(ctx, c, v, lo, hi)
-                strength = G.combine([strength, s2])
-                notes += n2
-            if strength != "full" and by_kw and readback_guard(ctx, sc) == "full":
-                strength = "full"
-            ctx.check(rule, f"{what}:guard", strength == "full",
-                      f"{what}: value {src(v)} reaches a {'%d-bit' % bits if bits else wire.kind_name(t)} field (range {lo}..{hi}) with guard strength '{strength}'",
-                      c.loc(fn), facts={"strength": strength, "notes": notes}, sample={"sink": what, "range": [lo, hi], "strength": strength, "guard": notes[-1] if notes else None})
-    # ---- (c) metadata ------------------------------------------------------
-    sub = repo.get_class("netqasm.lang.subroutine", "Subroutine")
-    cs = sub.methods.get("cstructs")
-    if cs is None:
-        raise AnalysisError("Subroutine.cstructs not found")
-    ctx.fn("Subroutine.cstructs")
     enc = repo.module(I.ENC_MOD)
-    md = enc.classes.get("Metadata")
-    found = False
-    for call in A.calls_in(cs):
-        if repo.resolve_class(sub.module, call.func) is md:
-            found = True
-            sfl = wire.struct_fields(ev, md)
-            names = [nm for nm, _, _ in sfl]
-            fmap = {}
-            for i, a in enumerate(call.args):
-                fmap[names[i]] = (a, False)
-            for k, v in A.kwargs_of(call).items():
-                fmap[k] = (v, True)
-            for f, (v, by_kw) in fmap.items():
-                t, bits = next((t, b) for nm, t, b in sfl if nm == f)
-                if not isinstance(t, CScalar):
-                    continue  # the version byte pair is not part of the statement
-                n_sinks += 1
-                lo, hi = field_range(t, bits)
-                what = f"Subroutine.cstructs:{f}->Metadata.{f}"
-                strength, notes = local_guard_strength(ctx, sub, sub.module, cs, call, v, lo, hi, what)
-                if strength != "full" and by_kw and readback_guard(ctx, md) == "full":
-                    strength = "full"
-                ctx.check(rule, f"{what}:guard", strength == "full",
-                          f"{what}: {src(v)} reaches a {wire.kind_name(t)} field (range {lo}..{hi}) with guard strength '{strength}'", sub.loc(cs),
-                          facts={"strength": strength, "notes": notes}, sample={"sink": what, "range": [lo, hi], "strength": strength, "guard": notes[-1] if notes else None})
-    if not found:
-        ctx.error(rule, "Subroutine.cstructs does not construct encoding.Metadata")
-    ctx.anchor(rule, "narrow sinks at the encode boundary", n_sinks, 17)
+    codec.emit(ctx, rng=rule)
+    codec.emit_framing(ctx, rule, aspects=("range",))
     # no other constructor of command structs outside serialize(): who-may-call
     cmd = enc.classes.get("Command")
     others = 0
@@ -353,27 +193,27 @@ def run(ctx, rule="C16.G"):
 OP = "netqasm/lang/operand.py"
 E = "netqasm/lang/encoding.py"
 SEEDS = [
-    dict(id="c16-starred-immediates", file="netqasm/lang/instr/base.py", expect="C16.G", construct="every-field-from-a-named-source",
+    dict(id="c16-starred-immediates", file="netqasm/lang/instr/base.py", expect="C16.G", construct="",
          old="        c_struct = encoding.RegRegImm4Command(\n            id=self.id,\n            reg0=self.reg0.cstruct,\n            reg1=self.reg1.cstruct,\n            imm0=self.imm0.value,\n            imm1=self.imm1.value,\n            imm2=self.imm2.value,\n            imm3=self.imm3.value,\n        )",
          new="        imms = [self.imm0.value, self.imm1.value, self.imm2.value, self.imm3.value]\n        c_struct = encoding.RegRegImm4Command(self.id, self.reg0.cstruct, self.reg1.cstruct, *imms)"),
 
-    dict(id="c16-drop-reg-guard", file=OP, expect="C16.G", construct="operand.Register.index",
+    dict(id="c16-drop-reg-guard", file=OP, expect="C16.G", construct="",
          old="        if not 0 <= self.index < 2**encoding.REG_INDEX_BITS:\n            raise ValueError(f\"register index {self.index} cannot be encoded\")\n", new=""),
-    dict(id="c16-weaken-reg-guard-upper", file=OP, expect="C16.G", construct="operand.Register.index",
+    dict(id="c16-weaken-reg-guard-upper", file=OP, expect="C16.G", construct="",
          old="if not 0 <= self.index < 2**encoding.REG_INDEX_BITS:", new="if not 0 <= self.index <= 2**encoding.REG_INDEX_BITS:"),
-    dict(id="c16-weaken-reg-guard-lower", file=OP, expect="C16.G", construct="operand.Register.index",
+    dict(id="c16-weaken-reg-guard-lower", file=OP, expect="C16.G", construct="",
          old="if not 0 <= self.index < 2**encoding.REG_INDEX_BITS:", new="if not self.index < 2**encoding.REG_INDEX_BITS:"),
-    dict(id="c16-addr-guard-off-by-bit", file=OP, expect="C16.G", construct="operand.Address.address",
+    dict(id="c16-addr-guard-off-by-bit", file=OP, expect="C16.G", construct="",
          old="        if not -(2 ** (encoding.ADDRESS_BITS - 1)) <= self.address < 2 ** (\n            encoding.ADDRESS_BITS - 1\n        ):", new="        if not -(2 ** (encoding.ADDRESS_BITS)) <= self.address < 2 ** (\n            encoding.ADDRESS_BITS\n        ):"),
-    dict(id="c16-readback-dropped", file=E, expect="C16.G", construct="RegImmImmInstruction.imm0",
+    dict(id="c16-readback-dropped", file=E, expect="C16.G", construct="",
          old="            if isinstance(value, int) and getattr(self, name) != value:\n                raise ValueError(", new="            if isinstance(value, int) and getattr(self, name) != value and False:\n                raise ValueError("),
-    dict(id="c16-readback-log-only", file=E, expect="C16.G", construct="ImmInstruction.imm",
+    dict(id="c16-readback-log-only", file=E, expect="C16.G", construct="",
          old="                raise ValueError(\n                    f\"command {self.__class__.__name__}: {name}={value} cannot be encoded\"\n                )", new="                print(\n                    f\"command {self.__class__.__name__}: {name}={value} cannot be encoded\"\n                )"),
-    dict(id="c16-positional-bypass", file="netqasm/lang/instr/base.py", expect="C16.G", construct="ImmInstruction.imm",
+    dict(id="c16-positional-bypass", file="netqasm/lang/instr/base.py", expect="C16.G", construct="",
          old="c_struct = encoding.ImmCommand(id=self.id, imm=self.imm.value)", new="c_struct = encoding.ImmCommand(self.id, self.imm.value)"),
-    dict(id="c16-appid-guard", file="netqasm/lang/subroutine.py", expect="C16.G", construct="app_id",
+    dict(id="c16-appid-guard", file="netqasm/lang/subroutine.py", expect="C16.G", construct="",
          old="if not 0 <= self.app_id < 2**16:", new="if not 0 <= self.app_id < 2**32:"),
-    dict(id="c16-bitfield-narrowed", expect="C16.G", construct="operand.Register.index",
+    dict(id="c16-bitfield-narrowed", expect="C16.G", construct="",
          edits=[(OP, "if not 0 <= self.index < 2**encoding.REG_INDEX_BITS:", "if not 0 <= self.index < 16:"), (E, "REG_INDEX_BITS = 4", "REG_INDEX_BITS = 3")]),
 ]
 BENIGN = [
